@@ -10,7 +10,7 @@ PROPS_LIR = "RotoV.Props.C01Lir"     # LIR layer: the model of lir/lower.rs (sca
 PROPS_MATCH = "RotoV.Props.C01Match" # match: Spec.evalArms is first-match; the guard chains of mir/lower/match_expr.rs (generated filters) are first-match
 MATCH_EXTRA = ["RotoV.Model.C01MatchLower", "RotoV.Model.Spec"]
 PROPS_CG = "RotoV.Props.C01Cg"       # code-generation layer: the generated control-flow arms of FuncGen::instruction emit code that runs as the LIR does
-CG_EXTRA = ["RotoV.Model.C01CgBase", "RotoV.Model.C01Cg", "RotoV.Lemmas.C01CgSim", "RotoV.Model.C01Lir"]
+CG_EXTRA = ["RotoV.Model.C01CgBase", "RotoV.Model.C01Cg", "RotoV.Lemmas.C01CgSim", "RotoV.Lemmas.C01CgCalls", "RotoV.Model.C01Lir"]
 LIR_EXTRA = ["RotoV.Model.C01Lir", "RotoV.Lemmas.C01LirSim", "RotoV.Model.C01MirRun"]
 LOWER_EXTRA = ["RotoV.Model.C01Resolve", "RotoV.Model.C01MirRun", "RotoV.Lemmas.C01Agree", "RotoV.Lemmas.C01Shape",
                "RotoV.Lemmas.C01MirOps", "RotoV.Lemmas.C01SpecOps", "RotoV.Lemmas.C01MirComplete", "RotoV.Lemmas.C01ScalarCode", "RotoV.Model.TraceSpec", "RotoV.Model.LowerS", "RotoV.Lemmas.LowerS",
@@ -115,7 +115,7 @@ def run(ctx):
              "operator table: every (operator, type) x boundary^2 + random operands, JIT vs Spec; programs: type-directed "
              "generator (helpers, (mutual) recursion, while, if/else, early return, compound assignment, shadowing, dead code; every other "
              "program declares enum types with 2..5 variants and matches on them: arm shapes incl. one variant + `_`, guards, nested) x 30 "
-             "argument tuples (boundary, random, small); T5 tie: 16 class representatives (one per construct of the fragment) first, then "
+             "argument tuples (boundary, random, small); T5 tie: 18 class representatives (one per construct of the fragment, two with functions that return nothing) first, then "
              "generated i32/bool programs with variables named by level: Spec value = composed-model value = JIT value on every tuple, and "
              "the model's structured MIR = the real MIR dump of every function, the LIR model on the real MIR = the real LIR of every function, and mRun (real MIR) = lRun (model LIR) = cRun (code the cg model emits for it) = Spec value; a class is distinct by (type, operator, outcome) in the table, by program "
              "text with >=1 execution where the Spec yields a value and the JIT agrees, by (construct set, arg type, ret type), or (t5:) by "
